@@ -279,3 +279,71 @@ func hC03UnaryCount() {
 		verifAssert(one, "C03: a unary client is not handed two response messages run together as one body")
 	}
 }
+
+// hC03LateRequestFault: a handler that answers first and reads its request afterwards (legal for any handler; usual
+// for proxies), while the client's request turns out to be faulty behind its first message: a second message for
+// a unary method, an envelope with invalid flags, or a cut. The transcoder reports the fault when the handler's
+// read runs into it - after the response body was written. Whatever was buffered of the response must then not
+// follow the end of the stream: the client gets one valid outcome.
+func hC03LateRequestFault() {
+	cfg := &pipeCfg{maxMsg: 64, kind: fkUnary, clientCodec: CodecProto}
+	cfg.client = []int{cfGRPC, cfGRPCWeb}[verifChoose("client", 2)]
+	cfg.svcProtos = []Protocol{[]Protocol{ProtocolConnect, ProtocolGRPC, ProtocolGRPCWeb}[verifChoose("target", 3)]}
+	cfg.svcCodecs = []string{[]string{CodecProto, CodecJSON}[verifChoose("otherCodec", 2)]}
+	if pipeIsPassThrough(cfg) {
+		return
+	}
+	p := newPipe(cfg)
+	if !p.buildOK {
+		return
+	}
+	target, codec, _ := refNegotiate(cfg)
+	stream := appendFrame(nil, 0, encodeMsg(cfg.clientCodec, wireMsg{abstract: []byte{'a'}}))
+	fault := verifChoose("fault", 4)
+	switch fault {
+	case 1:
+		stream = appendFrame(stream, 0, encodeMsg(cfg.clientCodec, wireMsg{abstract: []byte{'b'}})) // a second message
+	case 2:
+		stream = append(stream, 0x7f, 0, 0, 0, 0) // invalid flags
+	case 3:
+		stream = append(stream, 0, 0, 0) // cut inside an envelope
+	}
+	declareLen := verifChoose("declareLen", 2) == 1
+	p.tr.methods[pipePath].handler = http.HandlerFunc(func(w http.ResponseWriter, r *http.Request) {
+		w.Header().Set("Content-Type", p.backendContentType())
+		payload := encodeMsg(codec, wireMsg{abstract: []byte{'r'}})
+		switch target {
+		case ProtocolConnect:
+			if declareLen {
+				w.Header().Set("Content-Length", strconv.Itoa(len(payload)))
+			}
+			w.Write(payload)
+		default:
+			w.Write(appendFrame(nil, 0, payload))
+		}
+		readAllSized(r.Body, 16, 100) // only now does the handler look at its request
+		switch target {
+		case ProtocolGRPC:
+			w.Header().Set(http.TrailerPrefix+"Grpc-Status", "0")
+		case ProtocolGRPCWeb:
+			w.Write(appendFrame(nil, 0x80, []byte("grpc-status: 0\r\n")))
+		}
+	})
+	p.req = buildClientRequest(cfg, nil, p.body)
+	p.body.data = stream
+	p.tr.ServeHTTP(p.sink, p.req)
+	out := refParseClientResponse(cfg, p.sink, true)
+	verifObsInt("client-code", int64(out.code))
+	verifObsBytes("client-body", p.sink.body)
+	verifObsStr("oracle-why", out.why)
+	verifReach("answered-before-reading")
+	verifAssert(p.sink.heads == 1, "C03: exactly one response head")
+	verifAssert(out.valid, "C03: a request fault discovered after the response body was written still leaves one valid outcome (nothing follows the end of the stream)")
+	verifAssert(!out.dupStatus, "C03: no second terminal status")
+	for _, m := range out.msgs {
+		verifAssert(bytesEq(m, []byte{'r'}), "C03: a response message delivered before the fault is the handler's")
+	}
+	if fault == 0 {
+		verifAssert(out.valid && out.code == 0 && len(out.msgs) == 1, "C03: without a fault the early answer is a success")
+	}
+}
